@@ -1,6 +1,7 @@
 import QuiverModel.Theorems.C04
 import QuiverModel.Lemmas.Sys.Commute
 import QuiverModel.Lemmas.Sys.Kahn
+import QuiverModel.Lemmas.Sys.Stream
 /-
 C03 — Results do not depend on scheduling, worker count or time-slice length.
 
@@ -290,6 +291,32 @@ confluent class — one sender per mailbox — the stream is the sender's static
 `mailbox_sequence_determined` is the proved part) -/
 def StreamStatement (prog : Prog) (σ : Nat → List (Nat × Nat)) : Prop :=
   ∀ (n req : Nat) (cs : List Choice), 0 < n → StreamOK σ (C04.reach n prog req cs)
+
+/-- towards `StreamStatement` (proved): a pid has one script, and scripts persist along every
+micro-step — so "no script is run by two pids" (`Uniq`) on the final state of a run holds in all its
+earlier states (`Uniq.back`); what a time slice adds to the static send sequences is exactly its
+final send (`slice_sends`).  See notes/C03.md for the remaining steps. -/
+theorem pid_has_one_script (n : Nat) (prog : Prog) (req : Nat) (hn : 0 < n) (hwf : ProgWF prog) (cs : List Choice)
+    (q : Pid) (f f' : Nat) (h : Sid (C04.reach n prog req cs) q f) (h' : Sid (C04.reach n prog req cs) q f') : f = f' := by
+  rcases C04.sched_invariant n prog req hn hwf cs with hp | hs
+  · -- start-up: only process 0 (script 0), no SpawnProcess command
+    have hcmd : ∀ w regs g, Cmd.spawn q g regs ∉ (C04.reach n prog req cs).cmdQ w := by
+      intro w regs g hm
+      have := (hp.inert w) _ hm
+      simp [cmdCreate] at this
+    have hproc : ∀ g, Sid (C04.reach n prog req cs) q g → g = 0 := by
+      rintro g (⟨w, y, hy, hg⟩ | ⟨w, regs, hm⟩)
+      · rw [hp.wk] at hy
+        by_cases e : w = 0
+        · subst e
+          simp only [upd_same, W0init, WorkerSt.setProc, WorkerSt.empty, upd_apply] at hy
+          split at hy
+          · simp only [Option.some.injEq] at hy; subst hy; exact hg.symm
+          · cases hy
+        · simp [e, WorkerSt.empty] at hy
+      · exact absurd hm (hcmd w regs g)
+    rw [hproc f h, hproc f' h']
+  · exact h.functional hs h'
 
 /-- **Confluence up to progress and arrival order**: the conclusion of `ConfluenceStatement` for
 every send/spawn/await/receive script table with a register typing, from `ProgressStatement` (a
